@@ -81,6 +81,13 @@ where
         let mut decoder = ZlibDecoder::new(self.input);
         let mut buffer = Vec::with_capacity(expected_output_size);
         decoder.read_to_end(&mut buffer)?;
+        if buffer.len() != expected_output_size {
+            return Err(AsepriteParseError::InvalidInput(format!(
+                "Invalid decompressed data size. Expected: {}, Actual: {}",
+                expected_output_size,
+                buffer.len()
+            )));
+        }
         Ok(buffer)
     }
 }
